@@ -849,17 +849,20 @@ def parse_file(path):
         params = []
         while not p.at(")"):
             p.skip_attrs()
+            self_mut = False
             if p.at("&"):
                 p.next()
                 if p.peek()[0] == "life":
                     p.next()
                 if p.at("mut"):
                     p.next()
+                    self_mut = True
             if p.at("mut"):
                 p.next()
             pn = p.ident()
             if pn == "self":
-                params.append(("self", ("named", "Self")))
+                # `&mut self`: threaded through like every other `&mut` parameter
+                params.append(("self", ("mutref", ("named", "Self")) if self_mut else ("named", "Self")))
             else:
                 p.expect(":")
                 mutref = p.at("&") and (p.at("mut", 1) or (p.peek(1)[0] == "life" and p.at("mut", 2)))
@@ -1021,7 +1024,7 @@ STRUCTS.update({
 })
 # structures that exist only in the translation (TzVerif.Src, SrcPrelude.lean); everything else is TzVerif.Model
 SRC_STRUCTS = {"MonthWeekDay", "JulianDayCheckInfos", "MonthWeekDayCheckInfos"}
-LEAN_TYPE_NAME = {"TimeZoneRef": "TzVerif.Model.TimeZone", "FoundDateTimeKind": "TzVerif.Model.Found"}
+LEAN_TYPE_NAME = {"TimeZoneRef": "TzVerif.Model.TimeZone", "FoundDateTimeKind": "TzVerif.Model.Found", "FoundDateTimeListRefMut": "TzVerif.Model.RefMut"}
 # tuple structs with one field: the field itself
 NEWTYPES = {"Julian1WithoutLeap": "u16", "Julian0WithLeap": "u16"}
 # enums with payloads: variant -> (lean constructor, payload kinds)
@@ -1029,6 +1032,8 @@ STRUCT_VARIANTS = {
     # enum struct-variant literal / pattern -> (lean constructor, field order)
     ("FoundDateTimeKind", "Skipped"): ("TzVerif.Model.Found.skipped", ["before_transition", "after_transition"]),
 }
+
+STRUCT_VARIANT_FIELDS = {("FoundDateTimeKind", "Skipped"): {"before_transition": ("named", "DateTime"), "after_transition": ("named", "DateTime")}}
 
 ENUMS = {
     "FoundDateTimeKind": {"Normal": ("TzVerif.Model.Found.normal", ["DateTime"])},
@@ -1178,7 +1183,10 @@ def paren(s):
     return s if re.match(r"^[A-Za-z0-9_.']+$", s) else "(" + s + ")"
 
 
-TYPE_ALIASES = {"Cursor": ("slice", ("u8",)), "TimeData": ("slice", ("u8",))}
+TYPE_ALIASES = {"Cursor": ("slice", ("u8",)), "TimeData": ("slice", ("u8",)),
+                # struct FoundDateTimeList(Vec<FoundDateTimeKind>): the sequence itself
+                "FoundDateTimeList": ("slice", ("named", "FoundDateTimeKind"))}
+STRUCTS["FoundDateTimeListRefMut"] = {"buf": ("buf", ("slice", ("option", ("named", "FoundDateTimeKind")))), "current_index": ("currentIndex", "nat"), "count": ("count", "nat")}
 
 
 def strip_ref(t):
@@ -1234,8 +1242,21 @@ class Normaliser:
                 return [st]
             if st[1][0] == "pvar" and st[3][0] == "call" and st[3][1][0] == "path" and st[3][1][1][-2:] in (["Vec", "with_capacity"], ["Vec", "new"]):
                 self.vecs.add(st[1][1])
+            if st[3][0] == "mcall" and st[3][2] == "next" and not st[3][3] and st[3][1][0] == "path" and len(st[3][1][1]) == 1:
+                # let v = it.next();  on a local iterator: its head, and the iterator advances
+                it = st[3][1]
+                return [("let", st[1], st[2], ("mcall", it, "first", [])), ("assign", it, "=", ("mcall", it, "__tail", []))]
             lets, init = self.hoist(st[3], top=True)
             return lets + [("let", st[1], st[2], init)]
+        if k == "assign" and st[1][0] == "field" and st[1][1][0] == "path" and len(st[1][1][1]) == 1:
+            # s.f = v / s.f += v  on a local structure (or `&mut self`): the structure with that field replaced
+            base, f = st[1][1], st[1][2]
+            val = st[3] if st[2] == "=" else ("bin", st[2][0], st[1], st[3])
+            return self.stmt(("assign", base, "=", ("structupd", base, f, val)))
+        if k == "assign" and st[1][0] == "index" and st[1][1][0] == "field" and st[1][1][1][0] == "path" and st[2] == "=":
+            # s.f[i] = v
+            fld = st[1][1]
+            return self.stmt(("assign", fld, "=", ("listset", fld, st[1][2], st[3])))
         if k == "assign":
             lets, rhs = self.hoist(st[3], top=(st[2] == "="))
             if st[1][0] == "index" and st[1][1][0] == "path" and len(st[1][1][1]) == 1 and st[2] == "=":
@@ -1256,6 +1277,30 @@ class Normaliser:
                 raise TransError("chunks_exact_mut loop that is not the pair swap")
             lets, it2 = self.hoist(it, top=False)
             return lets + [("for", st[1], it2, self.block(body))]
+        if k == "expr" and st[1][0] == "iflet" and st[1][2][0] == "mcall" and st[1][2][2] == "get_mut":
+            # if let Some(x) = S.get_mut(i) { *x = v; … }: the slot exists iff i < S.len(); writing through x is S[i] = v
+            e = st[1]
+            pat, scrut = e[1], e[2]
+            if not (pat[0] == "pctor" and pat[1][-1] == "Some" and len(pat[2]) == 1 and pat[2][0][0] == "pvar"):
+                raise TransError("get_mut pattern")
+            x = pat[2][0][1]
+            target = ("index", scrut[1], scrut[3][0])
+            then = self.as_stmts(e[3])
+            out = []
+            for b in then:
+                if b[0] == "assign" and b[1] == ("path", [x]):
+                    # (the parser drops `*`; x is an immutable pattern binding, so only `*x = v` compiles)
+                    out.append(("assign", target, b[2], b[3]))
+                elif self.mentions(b, x):
+                    raise TransError("get_mut slot used other than by assignment through it")
+                else:
+                    out.append(b)
+            cond = ("bin", "<", scrut[3][0], ("mcall", scrut[1], "len", []))
+            return self.stmt(("expr", ("if", cond, ("block", out, None), e[4])))
+        if k == "expr" and st[1][0] == "mcall" and st[1][2] == "push" and st[1][1] == ("tfield", ("path", ["self"]), 0):
+            # self.0.push(v) in a tuple struct around a Vec (the struct is its field: TYPE_ALIASES)
+            lets, v = self.hoist(st[1][3][0], top=False)
+            return lets + [("assign", ("path", ["self"]), "=", ("pushed", ("path", ["self"]), v))]
         if k == "expr":
             e = st[1]
             if e[0] == "mcall" and e[2] == "push" and e[1][0] == "path" and len(e[1][1]) == 1 and (e[1][1][0] == self.out or e[1][1][0] in self.vecs):
@@ -1270,6 +1315,19 @@ class Normaliser:
             lets, e2 = self.hoist(e, top=True)
             return lets + [("expr", e2)]
         return [st]
+
+    @staticmethod
+    def as_stmts(blk):
+        if blk[0] != "block":
+            return [("expr", blk)]
+        return list(blk[1]) + ([("expr", blk[2])] if blk[2] is not None else [])
+
+    def mentions(self, node, name):
+        if node == ("path", [name]):
+            return True
+        if isinstance(node, (tuple, list)):
+            return any(self.mentions(x, name) for x in node)
+        return False
 
     def norm_pat(self, p, nested):
         """literals and `x @ lit` inside constructor patterns become variables with a guard:
@@ -1419,7 +1477,7 @@ class Fn:
             return None
         if t[0] == "named" and t[1] == "Self":
             return ("named", self.cfg.get("struct_override", {}).get(self.owner, self.owner))
-        if t[0] in ("ref", "slice", "option"):
+        if t[0] in ("ref", "slice", "option", "mutref"):
             return (t[0], self.resolve(t[1]))
         if t[0] == "result":
             return ("result", self.resolve(t[1]), self.resolve(t[2]))
@@ -1487,6 +1545,20 @@ class Fn:
             a, _ = self.ex(e[2][1], env)
             b, _ = self.ex(e[2][2], env)
             return ("(List.take (Int.toNat (%s - %s)) (List.drop (Int.toNat %s) %s))" % (b, a, a, s), strip_ref(t) if t else None)
+        if k == "index" and e[2][0] == "rangeto":
+            s, t = self.ex(e[1], env)
+            i, _ = self.ex(e[2][1], env)
+            return ("(List.take (Int.toNat %s) %s)" % (i, s), strip_ref(t) if t else None)
+        if k == "structupd":
+            s, t = self.ex(e[1], env)
+            t = strip_ref(t)
+            if not (t and t[0] == "named" and t[1] in STRUCTS and e[2] in STRUCTS[t[1]]):
+                raise TransError("field update %s of %r" % (e[2], t))
+            lf, ft = STRUCTS[t[1]][e[2]]
+            v, _ = self.ex(e[3], env, want=field_type(ft) if ft != "nat" else ("usize",))
+            if ft == "nat":
+                v = "(Int.toNat %s)" % v
+            return ("{ %s with %s := %s }" % (s, lf, v), t)
         if k == "index" and e[2][0] == "rangefrom":
             s, t = self.ex(e[1], env)
             i, _ = self.ex(e[2][1], env)
@@ -1505,6 +1577,8 @@ class Fn:
             t = strip_ref(t) if t else t
             if t and t[0] == "named" and t[1] in NEWTYPES and e[2] == 0:
                 return (s, (NEWTYPES[t[1]],))
+            if e[1] == ("path", ["self"]) and self.owner in TYPE_ALIASES and e[2] == 0:
+                return (s, t)       # tuple struct with one field: the field itself
             n = len(t[1]) if (t and t[0] == "tuple") else 2
             proj = ".1" if e[2] == 0 else (".2" if n == 2 else ".2" * e[2] + (".1" if e[2] < n - 1 else ""))
             return ("%s%s" % (s, proj), t[1][e[2]] if (t and t[0] == "tuple") else None)
@@ -1817,6 +1891,15 @@ class Fn:
                 call = "(Src.%s %s)" % (q, " ".join([s] + a))
                 text = call if text is None else "(if (decide (%s = %d)) then %s else %s)" % (vname(cname), cval, call, text)
             return (text, self.tr.sigs[impls[0][1]][1] if impls[0][1] in self.tr.sigs else None)
+        if name == "flatten" and t and t[0] == "slice" and t[1] and strip_ref(t[1])[0] == "option":
+            return ("(Src.flatten %s)" % s, ("slice", strip_ref(t[1])[1]))
+        if name == "__tail":
+            return ("(List.tail %s)" % s, t)
+        if name in ("first", "next") and t and t[0] == "slice":
+            # (`next` on an iterator expression that is not kept: its first element)
+            return ("(List.head? %s)" % s, ("option", t[1] if (t and t[0] == "slice") else None))
+        if name == "next_back" and t and t[0] == "slice":
+            return ("(List.getLast? %s)" % s, ("option", t[1]))
         if name == "first":
             return ("(List.head? %s)" % s, ("option", t[1] if (t and t[0] == "slice") else None))
         if name == "split_at_checked":
@@ -1896,6 +1979,9 @@ class Fn:
             return ("(Src.Repeat.mk %s)" % self.ex(args[0], env)[0], ("repeat",))
         if path[-2:] == ["Vec", "with_capacity"] or path[-2:] == ["Vec", "new"]:
             return ("[]", ("slice", None))
+        if len(path) == 2 and name == "default" and path[0] in TYPE_ALIASES and TYPE_ALIASES[path[0]][0] == "slice" and not args:
+            # #[derive(Default)] on a tuple struct around a Vec: the empty list
+            return ("[]", TYPE_ALIASES[path[0]])
         if name == "read_chunk_exact" and len(path) == 1:
             n = want[1] if (want and want[0] == "bytesN") else None
             if n is None:
@@ -1941,6 +2027,8 @@ class Fn:
             return ("(%s %s)" % (lean, " ".join(a)), rt)
         if q not in self.tr.sigs:
             raise TransError("call of untranslated function %s in %s" % ("::".join(path), self.qname))
+        if q in self.tr.funcs and self.tr.funcs[q][5].get("out_param") and not self.tr.funcs[q][5].get("out_kind"):
+            raise TransError("call of %s (output list) outside the `f(&mut list, …)?;` statement form" % q)
         params, ret = self.tr.sigs[q]
         a = []
         for (pn, pt), x in zip(params, args):
@@ -2015,6 +2103,15 @@ class Fn:
                     return "%s %s_m %s_w %s_d" % (ctor, v, v, v)
                 return "%s %s" % (ctor, paren(self.pat(subs[0], env, ("named", kinds[0]))))
             raise TransError("pattern %s" % "::".join(path))
+        if k == "parray":
+            et = elem_type(t) if (t and t[0] in ("slice", "array")) else None
+            return "[" + ", ".join(self.pat(x, env, et) for x in p[1]) + "]"
+        if k == "pstruct" and len(p[1]) >= 2 and (p[1][-2], p[1][-1]) in STRUCT_VARIANTS:
+            # enum struct variant, fields by name, the rest `..`
+            ctor, order = STRUCT_VARIANTS[(p[1][-2], p[1][-1])]
+            given = dict(p[2])
+            ftypes = STRUCT_VARIANT_FIELDS.get((p[1][-2], p[1][-1]), {})
+            return "%s %s" % (ctor, " ".join(paren(self.pat(given[f], env, ftypes.get(f))) if f in given else "_" for f in order))
         if k == "pstruct":
             name = p[1][-1]
             if name == "Self":
@@ -2107,6 +2204,8 @@ class Fn:
     def stmts(self, stmts, tail, env, k, ctx):
         if not stmts:
             if tail is None:
+                if ctx.get("fn_tail") and self.inout and not self.out:
+                    return k(self.ret_value(("tuple", []), env), env)
                 return k("()", env)
             return self.tail(tail, env, k, ctx)
         s = stmts[0]
@@ -2120,6 +2219,9 @@ class Fn:
                 raise TransError("let without initialiser")
             if t is None and p[0] == "pvar" and self.mentions_parse_int(init):
                 t = self.use_type(p[1], rest, tail, env)
+            oc = self.out_call(init)
+            if oc is not None:
+                return self.out_call_stmt(p, oc, env, cont, ctx)
             if init[0] == "closure" and p[0] == "pvar":
                 captured = []
                 for n in self.assigned(init[3], []):
@@ -2157,6 +2259,55 @@ class Fn:
         if kind == "for":
             return self.forloop(s, env, cont, ctx)
         raise TransError("statement %s" % kind)
+
+    def out_call(self, init):
+        """`f(&mut list, args…)?` where f is translated with an output list: (q, list variable, other args)"""
+        if init[0] != "try" or init[1][0] != "call" or init[1][1][0] != "path" or len(init[1][1][1]) != 1:
+            return None
+        q = init[1][1][1][0]
+        if q not in self.tr.funcs or not self.tr.funcs[q][5].get("out_param") or self.tr.funcs[q][5].get("out_kind"):
+            return None
+        names = [n for n, _ in self.tr.funcs[q][1]]
+        i = names.index(self.tr.funcs[q][5]["out_param"])
+        arg = init[1][2][i]
+        if arg[0] != "path" or len(arg[1]) != 1:
+            raise TransError("output list argument that is not a local variable")
+        return (q, arg[1][0], [a for j, a in enumerate(init[1][2]) if j != i], i)
+
+    def out_call_stmt(self, p, oc, env, cont, ctx):
+        """the callee only pushes into its `&mut impl DateTimeList` argument (it is translated as the pushed sequence):
+        the caller's container receives that sequence, one `push` of its own type at a time"""
+        q, lname, args, i = oc
+        if p[0] != "pwild":
+            raise TransError("value of a call with an output list")
+        lt = env.get(lname)
+        owner = None
+        if lt and lt[0] == "named":
+            owner = lt[1]
+        else:
+            for an, at in TYPE_ALIASES.items():
+                if at == lt and "%s.push" % an in self.tr.sigs:
+                    owner = an
+        if owner is None or "%s.push" % owner not in self.tr.sigs:
+            raise TransError("output list of type %r has no translated push" % (lt,))
+        params, ret = self.tr.sigs[q]
+        a = []
+        k = 0
+        for j, (pn, pt) in enumerate(params):
+            if j == i:
+                a.append("[]")
+            else:
+                a.append(self.ex(args[k], env, want=pt)[0])
+                k += 1
+        conv = "e"
+        et, rt = strip_ref(ret[2]), strip_ref(self.ret[2]) if (self.ret and self.ret[0] == "result") else None
+        if rt is None:
+            raise TransError("? in a function that does not return a Result")
+        if et != rt:
+            raise TransError("? converts %r into %r" % (et, rt))
+        v = vname(lname)
+        return ("match (Src.%s %s) with\n| .ok __pushed =>\n  let %s := List.foldl (fun acc x => (Src.%s acc x).2) %s __pushed\n%s\n| .error e => %s"
+                % (self.tr.lean_name(q), " ".join(a), v, self.tr.lean_name("%s.push" % owner), v, indent(cont(env)), ctx["ret"]("(Except.error %s)" % conv)))
 
     @staticmethod
     def mentions_parse_int(e):
@@ -2350,6 +2501,14 @@ class Fn:
             s, ti = self.ex(init[1], env, want=t)
             env2 = dict(env)
             self.post = []
+            if ti and ti[0] == "option":
+                # `?` on an Option in a function returning an Option
+                if not (self.ret and self.ret[0] == "option") or self.inout or self.out:
+                    raise TransError("? on an Option in a function that does not return one")
+                okp = self.pat(p, env2, ti[1])
+                if self.post:
+                    raise TransError("payload pattern after ?")
+                return "match %s with\n| some %s =>\n%s\n| none => %s" % (s, paren(okp), indent(cont(env2)), ctx["ret"]("none"))
             sv = self.state_vars(init[1], env)
             inner = ti[1] if ti and ti[0] == "result" else t
             if sv:
@@ -2615,7 +2774,8 @@ class Fn:
         if p[0] in ("plit", "prange", "pbool"):
             return True
         if p[0] == "parray":
-            return True
+            # byte-literal arrays go through the if-chain; arrays of constructor patterns are Lean list patterns
+            return any(x[0] in ("plit", "prange", "pbool", "pvar", "pwild", "pat_at") for x in p[1])
         if p[0] in ("ptuple", "por"):
             return any(self.needs_chain(x) for x in p[1])
         return False
@@ -2817,6 +2977,13 @@ class Translator:
                 self.order.remove(q)
                 continue
             ps = [(n, f.resolve(t)) for n, t in params]
+            # a `&mut` parameter the body never writes through (it is only moved into a structure, say) is a plain one
+            try:
+                written = set(f.assigned(f.body, []))
+            except TransError:
+                written = None
+            if written is not None:
+                ps = [(n, (t[1] if (t and t[0] == "mutref" and n not in written and n != f.out) else t)) for n, t in ps]
             inout = [n for n, t in ps if t and t[0] == "mutref"]
             self.inout[q] = [i for i, (n, t) in enumerate(ps) if t and t[0] == "mutref"]
             if inout:
@@ -2900,6 +3067,15 @@ CONFIG = {
         }),
         ("src/datetime/find.rs", {
             "find_date_time": {"out_param": "found_date_time_list"},
+            # the two result containers
+            "FoundDateTimeListRefMut.new": {}, "FoundDateTimeListRefMut.data": {}, "FoundDateTimeListRefMut.count": {},
+            "FoundDateTimeListRefMut.is_exhaustive": {}, "FoundDateTimeListRefMut.push": {},
+            "FoundDateTimeListRefMut.unique": {}, "FoundDateTimeListRefMut.earliest": {}, "FoundDateTimeListRefMut.latest": {},
+            "FoundDateTimeList.unique": {}, "FoundDateTimeList.earliest": {}, "FoundDateTimeList.latest": {}, "FoundDateTimeList.push": {},
+        }),
+        ("src/datetime/mod.rs", {
+            # the two entry points of the search
+            "DateTime.find": {}, "DateTime.find_n": {},
         }),
         ("src/datetime/mod.rs", {
             "format_date_time": {"out_param": "f", "out_kind": "fmt"},
@@ -2941,7 +3117,7 @@ def main():
     fails = "".join("-- NOT TRANSLATED %s\n" % str(v).replace("\n", " ") for v in tr.failed.values())
     text = ("-- GENERATED by tools/rs2lean.py from /repo/src on every run. Do not edit.\n"
             "-- One Lean definition per listed Rust function, translated statement by statement.\n" + fails +
-            "import TzVerif.SrcPrelude\nimport TzVerif.SrcPreludeStr\nimport TzVerif.Model.TzFile\n\nset_option linter.unusedVariables false\n\nnamespace TzVerif.Src\nopen TzVerif\n\n" + "\n".join(defs) + "\nend TzVerif.Src\n")
+            "import TzVerif.SrcPrelude\nimport TzVerif.SrcPreludeStr\nimport TzVerif.Model.TzFile\nimport TzVerif.Model.Find\n\nset_option linter.unusedVariables false\n\nnamespace TzVerif.Src\nopen TzVerif\n\n" + "\n".join(defs) + "\nend TzVerif.Src\n")
     path = os.path.join(OUT, "Src.lean")
     old = open(path).read() if os.path.exists(path) else None
     if old != text:
